@@ -1,0 +1,206 @@
+//go:build verif
+
+package astits
+
+// Verification hooks: thin exported wrappers around unexported pure functions, compiled only with
+// `-tags verif`. They contain no logic of their own and recover nothing (panics propagate to the
+// caller so that they are observed).
+
+import (
+	"bytes"
+	"time"
+
+	"github.com/asticode/go-astikit"
+)
+
+func VerifCRC32Table() [256]uint32                  { return tableCRC32 }
+func VerifComputeCRC32(bs []byte) uint32            { return computeCRC32(bs) }
+func VerifUpdateCRC32(crc uint32, bs []byte) uint32 { return updateCRC32(crc, bs) }
+
+// VerifParsePacket parses one packet; the packet size is len(bs)
+func VerifParsePacket(bs []byte, s PacketSkipper) (*Packet, error) {
+	return parsePacket(astikit.NewBytesIterator(bs), s)
+}
+
+// VerifWritePacket returns the bytes emitted (even on error), the returned count and the error
+func VerifWritePacket(p *Packet, target int) ([]byte, int, error) {
+	buf := &bytes.Buffer{}
+	w := astikit.NewBitsWriter(astikit.BitsWriterOptions{Writer: buf})
+	n, err := writePacket(w, p, target)
+	return buf.Bytes(), n, err
+}
+
+func VerifCalcPacketAdaptationFieldLength(af *PacketAdaptationField) uint8 {
+	return calcPacketAdaptationFieldLength(af)
+}
+
+func VerifParsePESData(bs []byte) (*PESData, error) {
+	return parsePESData(astikit.NewBytesIterator(bs))
+}
+
+func VerifWritePESData(h *PESHeader, payload []byte, start bool, avail int) ([]byte, int, int, error) {
+	buf := &bytes.Buffer{}
+	w := astikit.NewBitsWriter(astikit.BitsWriterOptions{Writer: buf})
+	ntot, npayload, err := writePESData(w, h, payload, start, avail)
+	return buf.Bytes(), ntot, npayload, err
+}
+
+func VerifCalcPESOptionalHeaderLength(h *PESOptionalHeader) uint8 {
+	return calcPESOptionalHeaderLength(h)
+}
+
+func VerifParsePSIData(bs []byte) (*PSIData, error) {
+	return parsePSIData(astikit.NewBytesIterator(bs))
+}
+
+func VerifWritePSIData(d *PSIData) ([]byte, int, error) {
+	buf := &bytes.Buffer{}
+	w := astikit.NewBitsWriter(astikit.BitsWriterOptions{Writer: buf})
+	n, err := writePSIData(w, d)
+	return buf.Bytes(), n, err
+}
+
+func VerifCalcPSISectionLength(s *PSISection) uint16 { return calcPSISectionLength(s) }
+
+// VerifParseDescriptors also returns the iterator offset after the loop
+func VerifParseDescriptors(bs []byte) ([]*Descriptor, int, error) {
+	i := astikit.NewBytesIterator(bs)
+	ds, err := parseDescriptors(i)
+	return ds, i.Offset(), err
+}
+
+func VerifWriteDescriptorsWithLength(ds []*Descriptor) ([]byte, int, error) {
+	buf := &bytes.Buffer{}
+	w := astikit.NewBitsWriter(astikit.BitsWriterOptions{Writer: buf})
+	n, err := writeDescriptorsWithLength(w, ds)
+	return buf.Bytes(), n, err
+}
+
+func VerifCalcDescriptorLength(d *Descriptor) uint8 { return calcDescriptorLength(d) }
+
+func VerifCalcDescriptorsLength(ds []*Descriptor) uint16 { return calcDescriptorsLength(ds) }
+
+func VerifParseDVBTime(bs []byte) (time.Time, error) {
+	return parseDVBTime(astikit.NewBytesIterator(bs))
+}
+
+func VerifWriteDVBTime(t time.Time) ([]byte, int, error) {
+	buf := &bytes.Buffer{}
+	w := astikit.NewBitsWriter(astikit.BitsWriterOptions{Writer: buf})
+	n, err := writeDVBTime(w, t)
+	return buf.Bytes(), n, err
+}
+
+func VerifParseDVBDurationMinutes(bs []byte) (time.Duration, error) {
+	return parseDVBDurationMinutes(astikit.NewBytesIterator(bs))
+}
+
+func VerifParseDVBDurationSeconds(bs []byte) (time.Duration, error) {
+	return parseDVBDurationSeconds(astikit.NewBytesIterator(bs))
+}
+
+func VerifWriteDVBDurationMinutes(d time.Duration) ([]byte, int, error) {
+	buf := &bytes.Buffer{}
+	w := astikit.NewBitsWriter(astikit.BitsWriterOptions{Writer: buf})
+	n, err := writeDVBDurationMinutes(w, d)
+	return buf.Bytes(), n, err
+}
+
+func VerifWriteDVBDurationSeconds(d time.Duration) ([]byte, int, error) {
+	buf := &bytes.Buffer{}
+	w := astikit.NewBitsWriter(astikit.BitsWriterOptions{Writer: buf})
+	n, err := writeDVBDurationSeconds(w, d)
+	return buf.Bytes(), n, err
+}
+
+func VerifIsPSIComplete(ps []*Packet) bool { return isPSIComplete(ps) }
+
+func VerifIsPSIPayload(pid uint16, pm map[uint16]uint16) bool {
+	m := newProgramMap()
+	for k, v := range pm {
+		m.setUnlocked(k, v)
+	}
+	return isPSIPayload(pid, m)
+}
+
+func VerifIsPESPayload(bs []byte) bool { return isPESPayload(bs) }
+
+// VerifPoolAdd feeds the packets to a fresh pool (with the given program map) and returns what
+// each add flushed, then what successive dumps return until the pool is empty
+func VerifPoolAdd(pm map[uint16]uint16, ps []*Packet) (flushed [][]*Packet, drained [][]*Packet) {
+	m := newProgramMap()
+	for k, v := range pm {
+		m.setUnlocked(k, v)
+	}
+	pool := newPacketPool(m)
+	for _, p := range ps {
+		flushed = append(flushed, pool.addUnlocked(p))
+	}
+	for {
+		d := pool.dumpUnlocked()
+		if len(d) == 0 {
+			break
+		}
+		drained = append(drained, d)
+	}
+	return
+}
+
+// VerifParseData runs parseData on a group of packets
+func VerifParseData(ps []*Packet, prs PacketsParser, pm map[uint16]uint16) ([]*DemuxerData, error) {
+	m := newProgramMap()
+	for k, v := range pm {
+		m.setUnlocked(k, v)
+	}
+	return parseData(ps, prs, m)
+}
+
+// VerifPoison overwrites the demuxer's packet read buffer with 0xAA
+func (dmx *Demuxer) VerifPoison() {
+	if dmx.packetBuffer != nil {
+		for i := range dmx.packetBuffer.packetReadBuffer {
+			dmx.packetBuffer.packetReadBuffer[i] = 0xaa
+		}
+	}
+}
+
+// VerifPoisonPool takes up to n buffers out of the package-level pool, overwrites their whole
+// capacity with 0xAA and puts them back
+func VerifPoisonPool(n int) {
+	items := make([]*bytesPoolItem, 0, n)
+	for i := 0; i < n; i++ {
+		it := bytesPool.sp.Get().(*bytesPoolItem)
+		s := it.s[:cap(it.s)]
+		for j := range s {
+			s[j] = 0xaa
+		}
+		items = append(items, it)
+	}
+	for _, it := range items {
+		bytesPool.sp.Put(it)
+	}
+}
+
+// VerifState exposes the demuxer's internal bookkeeping
+func (dmx *Demuxer) VerifState() (dataBuffered, poolPIDs int, hasPacketBuffer bool, packetSize int, programMap map[uint16]uint16) {
+	dataBuffered = len(dmx.dataBuffer)
+	poolPIDs = len(dmx.packetPool.b)
+	hasPacketBuffer = dmx.packetBuffer != nil
+	if hasPacketBuffer {
+		packetSize = dmx.packetBuffer.packetSize
+	}
+	programMap = map[uint16]uint16{}
+	for k, v := range dmx.programMap.p {
+		programMap[uint16(k)] = v
+	}
+	return
+}
+
+// VerifMuxerState exposes the muxer's counters
+func (m *Muxer) VerifMuxerState() (patCC, pmtCC, patVersion, pmtVersion, nextPID, retransmitCounter int, esCC map[uint16]int) {
+	esCC = map[uint16]int{}
+	for k, v := range m.esContexts {
+		esCC[uint16(k)] = v.cc.get()
+	}
+	return m.patCC.get(), m.pmtCC.get(), m.patVersion.get(), m.pmtVersion.get(), int(m.nextPID), m.tablesRetransmitCounter, esCC
+}
